@@ -36,6 +36,8 @@ Definition get_window (vals : list Z) : export :=
   | x :: _ => mkE x (last s 0) (Z.quot (sum64 s) (Z.of_nat (length s)))
   end.
 
+Definition export_triple (e : export) : Z * Z * Z := (e_min e, e_max e, e_avg e).
+
 (* one key of stats.windows: absent until the first AddSample *)
 Definition wstate := option window.
 
